@@ -60,7 +60,7 @@ func loadProgram(repo string) (*Program, error) {
 	if len(errs) > 0 {
 		return nil, fmt.Errorf("BUILD-FAILED: %s", strings.Join(errs, "\n"))
 	}
-	prog, _ := ssautil.AllPackages(pkgs, ssa.InstantiateGenerics)
+	prog, _ := ssautil.AllPackages(pkgs, ssa.InstantiateGenerics|ssa.GlobalDebug)
 	prog.Build()
 	p := &Program{Fset: fset, Pkgs: pkgs, SSA: prog, ByPath: map[string]*packages.Package{}, RepoDir: repo, ModPath: repoModule,
 		ContractSrc: map[string][]ContractLine{}}
